@@ -35,7 +35,8 @@ const char * const engine_props[] = { "C19", "C20", NULL };
 enum {
 	N_SIGN, N_SIGN_OK, N_SIGN_FAIL, N_V0, N_V1, N_V2, N_V3, N_TIME_READS, N_F_TIME, N_F_ALLOC, N_DAY_ROLL, N_SEC_ROLL,
 	N_BODY_NULL, N_BODY_EMPTY, N_BODY_BIG, N_HASH, N_HASH_CTX_BYTES, N_AES, N_AESCTR, N_AESCTR_REUSE, N_READKEYS,
-	N_RK_OK, N_RK_FAIL_AFTER_SECRET, N_F_STREAM_ERR, N_F_FCLOSE, N_F_SHORT, N_FREED_SCANNED, N_SECRET60, N_LEAKNOTE, N_AIMED
+	N_RK_OK, N_RK_FAIL_AFTER_SECRET, N_F_STREAM_ERR, N_F_FCLOSE, N_F_SHORT, N_FREED_SCANNED, N_SECRET60, N_LEAKNOTE, N_AIMED,
+	N_HASH_BIG
 };
 const char * const engine_counters[] = {
 	"sign_calls", "sign_ok", "sign_failed", "variant_s3_headers", "variant_s3_querystr", "variant_svc_headers",
@@ -44,7 +45,8 @@ const char * const engine_counters[] = {
 	"hash_computations", "hash_context_bytes_checked", "aes_key_expand_free", "aesctr_stream_free",
 	"probe_aesctr_reinit", "readkeys_calls", "readkeys_ok", "probe_readkeys_failed_after_secret",
 	"fault_stream_read_error", "fault_fclose_failed", "fault_stream_short_reads", "freed_blocks_scanned",
-	"probe_secret_64_byte_hmac_key", "note_blocks_left_allocated_not_judged", "probe_formatted_length_aimed_at_1024", NULL
+	"probe_secret_64_byte_hmac_key", "note_blocks_left_allocated_not_judged", "probe_formatted_length_aimed_at_1024",
+	"probe_hash_context_with_high_counter_word_in_use", NULL
 };
 
 #define AF_SINCE(before) (simalloc_failed != (before))
@@ -92,7 +94,7 @@ __wrap_time(time_t * t)
 }
 
 /* ================= free hook: scan released blocks for secrets ================= */
-#define NPAT 6
+#define NPAT 40
 static uint8_t pat[NPAT][16];
 static const char * patname[NPAT];
 static int npat, hits;
@@ -407,6 +409,7 @@ do_hash(const struct pline * l)
 	int alg = (int)(l->a[0] < 0 ? -l->a[0] : l->a[0]) % 6;
 	size_t msglen = (size_t)(l->a[1] < 0 ? 0 : l->a[1]) % 5000, keylen = (size_t)(l->a[3] < 0 ? 0 : l->a[3]) % 200;
 	int nupd = (int)((l->a[2] < 0 ? 0 : l->a[2]) % 6);
+	int big = l->nargs > 5 && (l->a[5] & 1);
 	uint64_t seed = (uint64_t)l->a[4];
 	uint8_t * msg = malloc(msglen + 1), * key = malloc(keylen + 1), dig[32];
 	size_t i, pos = 0;
@@ -419,7 +422,7 @@ do_hash(const struct pline * l)
 	memset(&c, 0xa5, sizeof(c));
 	R->cnt[N_HASH]++;
 	LIB_ENTER();
-#define RUN(INIT, UPDATE, FINAL, FIELD, NAME) do {						\
+#define RUN(INIT, UPDATE, FINAL, FIELD, NAME, POKE) do {					\
 		INIT;										\
 		for (i = 0; i < (size_t)nupd; i++) {						\
 			size_t n = (msglen - pos) / (size_t)(nupd - (int)i);			\
@@ -427,16 +430,25 @@ do_hash(const struct pline * l)
 			pos += n;								\
 		}										\
 		UPDATE(&c.FIELD, msg + pos, msglen - pos);					\
+		if (big) {									\
+			/* the state of a context that has absorbed 512 MiB and more: high half of the bit counter in use */ \
+			POKE;									\
+			R->cnt[N_HASH_BIG]++;							\
+		}										\
 		FINAL(dig, &c.FIELD);								\
 		check_zero(&c.FIELD, sizeof(c.FIELD), NAME);					\
 	} while (0)
 	switch (alg) {
-	case 0: RUN(SHA256_Init(&c.s256), SHA256_Update, SHA256_Final, s256, "SHA256"); break;
-	case 1: RUN(HMAC_SHA256_Init(&c.h256, key, keylen), HMAC_SHA256_Update, HMAC_SHA256_Final, h256, "HMAC_SHA256"); break;
-	case 2: RUN(SHA1_Init(&c.s1), SHA1_Update, SHA1_Final, s1, "SHA1"); break;
-	case 3: RUN(HMAC_SHA1_Init(&c.h1, key, keylen), HMAC_SHA1_Update, HMAC_SHA1_Final, h1, "HMAC_SHA1"); break;
-	case 4: RUN(MD5_Init(&c.m5), MD5_Update, MD5_Final, m5, "MD5"); break;
-	default: RUN(HMAC_MD5_Init(&c.hm5, key, keylen), HMAC_MD5_Update, HMAC_MD5_Final, hm5, "HMAC_MD5"); break;
+#define HI64 ((uint64_t)0x01234567 << 32)
+	case 0: RUN(SHA256_Init(&c.s256), SHA256_Update, SHA256_Final, s256, "SHA256", c.s256.count += HI64); break;
+	case 1: RUN(HMAC_SHA256_Init(&c.h256, key, keylen), HMAC_SHA256_Update, HMAC_SHA256_Final, h256, "HMAC_SHA256",
+	    (c.h256.ictx.count += HI64, c.h256.octx.count += HI64)); break;
+	case 2: RUN(SHA1_Init(&c.s1), SHA1_Update, SHA1_Final, s1, "SHA1", c.s1.count[1] += 0x01234567); break;
+	case 3: RUN(HMAC_SHA1_Init(&c.h1, key, keylen), HMAC_SHA1_Update, HMAC_SHA1_Final, h1, "HMAC_SHA1",
+	    (c.h1.ictx.count[1] += 0x01234567, c.h1.octx.count[1] += 0x01234567)); break;
+	case 4: RUN(MD5_Init(&c.m5), MD5_Update, MD5_Final, m5, "MD5", c.m5.count[1] += 0x01234567); break;
+	default: RUN(HMAC_MD5_Init(&c.hm5, key, keylen), HMAC_MD5_Update, HMAC_MD5_Final, hm5, "HMAC_MD5",
+	    (c.hm5.ictx.count[1] += 0x01234567, c.hm5.octx.count[1] += 0x01234567)); break;
 	}
 	LIB_LEAVE();
 	sim_trh(0x20, (uint64_t)alg, dig[0]);
@@ -452,7 +464,7 @@ do_aes(const struct pline * l)
 	size_t keylen = (l->a[0] & 1) ? 32 : 16;
 	uint64_t seed = (uint64_t)l->a[1];
 	size_t streamlen = (size_t)(l->a[2] < 0 ? 0 : l->a[2]) % 5000;
-	int reuse = (int)(l->a[3] & 1), afk = l->nargs > 4 ? (int)l->a[4] : -1;
+	int reuse = (int)((l->a[3] < 0 ? -l->a[3] : l->a[3]) % 4), afk = l->nargs > 4 ? (int)l->a[4] : -1;
 	uint8_t key[32], sw[32], ks[16], blk[16], * buf;
 	struct crypto_aes_key * K;
 	struct crypto_aesctr * S;
@@ -486,11 +498,20 @@ do_aes(const struct pline * l)
 
 		LIB_ENTER();
 		crypto_aesctr_stream(S, buf, buf, streamlen);
-		if (reuse) {
+		if (reuse == 1) {
 			nonce ^= 0x55;
 			crypto_aesctr_init2(S, K, nonce);
 			crypto_aesctr_stream(S, buf, buf, streamlen / 2 + 1);
 			streamlen = streamlen / 2 + 1;
+			R->cnt[N_AESCTR_REUSE]++;
+		} else if (reuse >= 2) {
+			/*
+			 * re-initialised and then freed without (or with a zero-length) use: whatever the object still
+			 * holds from its first use is as secret as before (patterns stay those of the first use)
+			 */
+			crypto_aesctr_init2(S, K, nonce ^ 0x55);
+			if (reuse == 3)
+				crypto_aesctr_stream(S, buf, buf, 0);
 			R->cnt[N_AESCTR_REUSE]++;
 		}
 		LIB_LEAVE();
@@ -520,6 +541,24 @@ do_aes(const struct pline * l)
 	hits = 0;
 	add_pat(key, "AES key (start of the expanded key, raw byte order)");
 	add_pat(sw, "AES key (start of the expanded key, word-swapped as in AES_KEY)");
+	{
+		/*
+		 * Every round key of the schedule is key material (any one of them gives the key away): as OpenSSL's
+		 * AES_KEY holds them in memory, and in FIPS-197 byte order as the AES-NI code holds them.  A wipe that
+		 * covers only part of the object leaves some of them behind.
+		 */
+		int rounds = keylen == 16 ? 10 : 14, r, w;
+		uint8_t img[16], raw[16];
+
+		AES_set_encrypt_key(key, (int)keylen * 8, &ok);
+		for (r = 1; r <= rounds; r++) {
+			memcpy(img, (const uint8_t *)ok.rd_key + 16 * r, 16);
+			for (w = 0; w < 16; w++)
+				raw[w] = img[(w & ~3) + (3 - (w & 3))];
+			add_pat(img, "a later AES round key (as in AES_KEY)");
+			add_pat(raw, "a later AES round key (FIPS-197 byte order)");
+		}
+	}
 	LIB_ENTER();
 	crypto_aes_key_free(K);
 	LIB_LEAVE();
@@ -753,11 +792,11 @@ engine_gen(struct plan * P, uint64_t seed, struct prng * g)
 			    (faulty && prng_chance(g, 30) ? (int64_t)prng_n(g, 2) : (int64_t)-1), (faulty && prng_chance(g, 70) ? (int64_t)prng_n(g, 8) : (int64_t)-1),
 			    (prng_chance(g, 35) ? (int64_t)(1 + prng_n(g, 6)) : (int64_t)0));
 		} else if (x < 70) {
-			plan_add(P, "step", "hash", 5, (int64_t)prng_n(g, 6), (prng_chance(g, 50) ? (int64_t)prng_n(g, 200) : (int64_t)prng_n(g, 5000)), (int64_t)prng_n(g, 6),
-			    (prng_chance(g, 50) ? (int64_t)(60 + prng_n(g, 10)) : (int64_t)prng_n(g, 200)), (int64_t)prng_n(g, 1000000));
+			plan_add(P, "step", "hash", 6, (int64_t)prng_n(g, 6), (prng_chance(g, 50) ? (int64_t)prng_n(g, 200) : (int64_t)prng_n(g, 5000)), (int64_t)prng_n(g, 6),
+			    (prng_chance(g, 50) ? (int64_t)(60 + prng_n(g, 10)) : (int64_t)prng_n(g, 200)), (int64_t)prng_n(g, 1000000), (int64_t)prng_chance(g, 12));
 		} else if (x < 85) {
 			plan_add(P, "step", "aes", 5, (int64_t)prng_n(g, 2), (int64_t)prng_n(g, 1000000), (prng_chance(g, 50) ? (int64_t)prng_n(g, 40) : (int64_t)prng_n(g, 5000)),
-			    (int64_t)prng_chance(g, 30), (prng_chance(g, 15) ? (int64_t)prng_n(g, 3) : (int64_t)-1));
+			    (int64_t)(prng_chance(g, 40) ? 1 + prng_n(g, 3) : 0), (prng_chance(g, 15) ? (int64_t)prng_n(g, 3) : (int64_t)-1));
 		} else {
 			int nl = 1 + (int)prng_n(g, 4), k;
 
